@@ -7,6 +7,9 @@ Open Scope string_scope.
 Open Scope list_scope.
 Open Scope nat_scope.
 
+(* every operation of a closed history is in scope: decided by computation *)
+Ltac scoped := repeat (constructor; try exact I; try (vm_compute; reflexivity)).
+
 Definition li (l : list Z) : operand := OSeq KList (map (fun z => OScalar (PInt z)) l).
 
 (* a container over periods 10,11,12 with an int64 series X = [1,2,3] and a float64 series F = [1.5,2,3] *)
@@ -22,7 +25,7 @@ Example w0_series :
 Proof. vm_compute. repeat split. Qed.
 
 Example w0_inv : Inv w0.
-Proof. apply reachable_inv. apply inv_init_vc. Qed.
+Proof. apply reachable_inv; [scoped|apply inv_init_vc]. Qed.
 
 (* the hypotheses of reachable_invD are satisfiable: a history with list, scalar and (consistent) ndarray operands *)
 Example w0_invD :
@@ -32,7 +35,8 @@ Example w0_invD :
 Proof.
   apply reachable_invD.
   - repeat constructor.
-  - apply reachable_invD; [repeat constructor|apply invD_init_vc].
+  - scoped.
+  - apply reachable_invD; [repeat constructor|scoped|apply invD_init_vc].
 Qed.
 
 (* ---- NumPy's casts raise only ValueError / TypeError / OverflowError *)
@@ -62,7 +66,7 @@ Proof.
 Qed.
 
 (* the NumPy tables of this image satisfy the three hypotheses *)
-Theorem np_no_other_error o s : Inv s -> snd (np_step o s) <> Raise OtherError.
+Theorem np_no_other_error o s : in_scope (kind s) o -> Inv s -> snd (np_step o s) <> Raise OtherError.
 Proof.
   apply no_other_error.
   - intros d c C. apply np_cast_classes in C. destruct C as [C|[C|C]]; discriminate C.
@@ -156,7 +160,7 @@ Example values_setter_content_instance :
   assoc "F" (vars (fst (values_setter np_pycast np_arrcast np_infer a w0))) = Some (mkVar DFloat [3] [PFlt (FHalf 5); PFlt (FHalf 6); PFlt (FHalf 7)]%Z).
 Proof.
   split; [vm_compute; repeat constructor; simpl; intros C; repeat (destruct C as [C|C]; [discriminate C|]); exact C|].
-  split; [apply reachable_invD; [repeat constructor|apply invD_init_vc]|].
+  split; [apply reachable_invD; [repeat constructor|scoped|apply invD_init_vc]|].
   vm_compute. repeat split.
 Qed.
 
@@ -182,7 +186,7 @@ Theorem strict_values_setter_blocked_refuted :
     snd (np_step (SetAttr "values" v None) (set_strict s false)) = Ret tt.
 Proof.
   exists w_strict, (OScalar (PInt 5)). split; [|vm_compute; repeat split].
-  apply step_preserves_inv. exact w0_inv.
+  apply step_preserves_inv; [vm_compute; reflexivity|exact w0_inv].
 Qed.
 
 (* the hypotheses of values_setter_reached are satisfiable: strict off, or strict on after 'values' has been registered *)
@@ -222,3 +226,65 @@ Example strict_init_rejects_unlisted :
   snd (np_init_model CModel [1; 2]%Z true RFloat (OScalar (PFlt (FHalf 0))) ["Y"] [("Q", OScalar (PInt 5))]) = Raise InitialisationError /\
   snd (np_init_model CModel [1; 2]%Z false RFloat (OScalar (PFlt (FHalf 0))) ["Y"; "Y"] []) = Raise DuplicateNameError.
 Proof. vm_compute. split; reflexivity. Qed.
+
+(* ==== assignments to the object's own bookkeeping are OUTSIDE the property's operations: the hypothesis `in_scope` of the
+   invariant theorems is necessary.  Each is accepted by the real object (also under strict=True: the names are registered). *)
+Definition w_s : state := fst (np_step (SetAttr "strict" (OScalar (PBool true)) None) w0).
+
+(* c.span = [1]: accepted; afterwards every series has 3 cells for a span of 1 period *)
+Theorem span_assignment_needs_scope_refuted :
+  exists s o, Inv s /\ strict s = true /\ ~ in_scope (kind s) o /\ snd (np_step o s) = Ret tt /\
+    span (fst (np_step o s)) <> span s /\ ~ Inv (fst (np_step o s)).
+Proof.
+  exists w_s, (SetAttr "span" (li [1]%Z) None).
+  split; [apply step_preserves_inv; [vm_compute; reflexivity|exact w0_inv]|].
+  split; [vm_compute; reflexivity|]. split; [vm_compute; discriminate|]. split; [vm_compute; reflexivity|].
+  split; [vm_compute; discriminate|].
+  intros [[_ [_ HV]] _]. specialize (HV "X" (mkVar DInt [3] [PInt 1; PInt 2; PInt 3]%Z)). vm_compute in HV.
+  specialize (HV eq_refl). discriminate HV.
+Qed.
+
+(* c.index = ['X', 'X'] / c.index = ['Q']: accepted; the index holds a name twice / a name without a series *)
+Theorem index_assignment_needs_scope_refuted :
+  exists s o, Inv s /\ ~ in_scope (kind s) o /\ snd (np_step o s) = Ret tt /\ ~ Inv (fst (np_step o s)).
+Proof.
+  exists w0, (SetAttr "index" (OSeq KList [OScalar (PStr "Q")]) None).
+  split; [exact w0_inv|]. split; [vm_compute; discriminate|]. split; [vm_compute; reflexivity|].
+  intros [[_ [HI _]] _]. apply (HI "Q"); [vm_compute; left; reflexivity|vm_compute; reflexivity].
+Qed.
+
+(* m.names = ['C']: accepted by a model; `values` then has 1 row although 2 variables were declared, `size` 3 instead of 6;
+   m.dtype = int: accepted; add_variable without dtype then creates int64 series *)
+Theorem names_assignment_needs_scope_refuted :
+  exists s o, Inv s /\ ~ in_scope (kind s) o /\ snd (np_step o s) = Ret tt /\
+    values_shape s = Ret [2; 3] /\ values_shape (fst (np_step o s)) = Ret [1; 3] /\ size_of (fst (np_step o s)) = 3.
+Proof.
+  exists (fst m0), (SetAttr "names" (OSeq KList [OScalar (PStr "C")]) None).
+  split; [exact m0_inv|]. split; [vm_compute; discriminate|]. vm_compute. repeat split.
+Qed.
+
+Theorem dtype_assignment_needs_scope_refuted :
+  exists s o, Inv s /\ ~ in_scope (kind s) o /\ snd (np_step o s) = Ret tt /\
+    dtype_of (fst (np_step (AddVariable "N" (OScalar (PFlt (FHalf 3))) None) s)) "N" = Some DFloat /\
+    dtype_of (fst (np_step (AddVariable "N" (OScalar (PFlt (FHalf 3))) None) (fst (np_step o s)))) "N" = Some DInt.
+Proof.
+  exists (fst m0), (SetAttr "dtype" (OScalar (PStr "int")) None).
+  split; [exact m0_inv|]. split; [vm_compute; discriminate|]. vm_compute. repeat split.
+Qed.
+
+(* c._X = 5 (strict off): the series object of X itself is replaced - the model gives up (OtherError = outside the model) *)
+Theorem underscore_assignment_needs_scope_refuted :
+  exists s o, Inv s /\ ~ in_scope (kind s) o /\ snd (np_step o s) = Raise OtherError.
+Proof.
+  exists w0, (SetAttr "_X" (OScalar (PInt 5)) None).
+  split; [exact w0_inv|]. split; [vm_compute; discriminate|]. vm_compute. reflexivity.
+Qed.
+
+(* ---- the repaired defect (fix d82b358): add_variable refuses a name whose storage key is taken *)
+Example reserved_names_rejected :
+  np_step (AddVariable "attributes" (OScalar (PInt 0)) None) w0 = (w0, Raise DuplicateNameError) /\
+  np_step (AddVariable "strict" (li [1; 0; 1]%Z) None) w0 = (w0, Raise DuplicateNameError) /\
+  (let s := fst (np_step (SetAttr "_q" (OScalar (PInt 1)) None) w0) in
+   np_step (AddVariable "q" (OScalar (PInt 0)) None) s = (s, Raise DuplicateNameError)) /\
+  snd (np_step (AddVariable "span" (OScalar (PInt 0)) None) w0) = Ret tt.
+Proof. vm_compute. repeat split. Qed.
